@@ -8,6 +8,7 @@ import (
 	pdtypes "github.com/bcp-innovations/hyperlane-cosmos/x/core/02_post_dispatch/types"
 	hyptypes "github.com/bcp-innovations/hyperlane-cosmos/x/core/types"
 	warptypes "github.com/bcp-innovations/hyperlane-cosmos/x/warp/types"
+	cctptypes "github.com/circlefin/noble-cctp/x/cctp/types"
 
 	sdkmath "cosmossdk.io/math"
 	sdk "github.com/cosmos/cosmos-sdk/types"
@@ -156,6 +157,29 @@ func (w *World) setupHyperlane() error {
 	}
 	if h.TokenBIG, err = mk(BIG); err != nil {
 		return err
+	}
+	return w.warmUp()
+}
+
+// warmUp makes the chain look like a live one: the module accounts of the bridges (cctp,
+// fiat-tokenfactory, warp, hyperlane) exist because the bridges have been used before.
+func (w *World) warmUp() error {
+	alice := w.K("alice")
+	rcpt := make([]byte, 32)
+	rcpt[31] = 1
+	if _, err := w.MustDeliver(alice, &cctptypes.MsgDepositForBurn{
+		From: alice.String(), Amount: sdkmath.NewInt(1000), DestinationDomain: 0, MintRecipient: rcpt, BurnToken: USDC,
+	}); err != nil {
+		return fmt.Errorf("warm-up cctp: %w", err)
+	}
+	var r32 hyputil.HexAddress
+	copy(r32[:], rcpt)
+	if _, err := w.MustDeliver(alice, &warptypes.MsgRemoteTransfer{
+		Sender: alice.String(), TokenId: w.Hyp.TokenUSDN, DestinationDomain: 1, Recipient: r32,
+		Amount: sdkmath.NewInt(1000), CustomHookId: &w.Hyp.IGP, GasLimit: sdkmath.NewInt(1000),
+		MaxFee: sdk.NewCoin(USDN, sdkmath.NewInt(1_000_000)),
+	}); err != nil {
+		return fmt.Errorf("warm-up warp: %w", err)
 	}
 	return nil
 }
